@@ -68,6 +68,9 @@ def rev(v):
     raise AnalysisError('reverse_array of a non-array value')
 
 
+BAD_TOTALS = {}
+
+
 class FoldInterp:
     def __init__(self, fn, src):
         self.fn = fn
@@ -156,7 +159,24 @@ class FoldInterp:
             raise AnalysisError('%s: unsupported arithmetic %s' % (self.fn.name, ast.unparse(e)))
         if isinstance(e, ast.Compare) and len(e.ops) == 1:
             # cell-class predicates: the allele total of an entry against half the total sample size
-            l, r = ast.unparse(e.left).replace(' ', ''), ast.unparse(e.comparators[0]).replace(' ', '')
+            def canon_names(node):
+                # names are resolved through the environment: what matters is that the left side is the allele total of each
+                # entry and the right side half the total sample size, whatever the local variables are called
+                from sa.srcmodel import clone
+                node = clone(node)
+                for x in ast.walk(node):
+                    if isinstance(x, ast.Name) and isinstance(self.env.get(x.id), tuple) and self.env[x.id][0] == 'scalar':
+                        txt = self.env[x.id][1].replace(' ', '')
+                        if txt == 'self._total_per_entry()':
+                            x.id = 'total_per_entry'
+                        elif txt in ('numpy.sum(self.sample_sizes)', 'self.sample_sizes.sum()'):
+                            x.id = 'total_samples'
+                        else:
+                            BAD_TOTALS.setdefault(self.fn.name, '%s = %s' % (x.id, txt))
+                    elif isinstance(x, ast.Name) and x.id in ('total_samples', 'total_per_entry'):
+                        BAD_TOTALS.setdefault(self.fn.name, '%s is not defined from the spectrum' % x.id)
+                return ast.unparse(node).replace(' ', '').replace('self._total_per_entry()', 'total_per_entry').replace('numpy.sum(self.sample_sizes)', 'total_samples')
+            l, r = canon_names(e.left), canon_names(e.comparators[0])
             op = type(e.ops[0]).__name__
             flip = {'Lt': 'Gt', 'Gt': 'Lt', 'LtE': 'GtE', 'GtE': 'LtE', 'Eq': 'Eq', 'NotEq': 'NotEq'}
             if r == 'total_per_entry':
@@ -224,6 +244,13 @@ class FoldInterp:
                 continue
             if isinstance(st, ast.If) and any(isinstance(x, ast.Raise) for x in st.body):
                 continue
+            if isinstance(st, ast.If) and isinstance(st.test, ast.Compare) and len(st.test.ops) == 1 and isinstance(st.test.ops[0], (ast.Is, ast.IsNot)) \
+                    and isinstance(st.test.left, ast.Name) and isinstance(st.test.comparators[0], ast.Constant) and st.test.comparators[0].value is None \
+                    and st.test.left.id in self.env:
+                # `if x is None:` on a value the interpreter knows
+                is_none = self.env[st.test.left.id] is None
+                truth = is_none if isinstance(st.test.ops[0], ast.Is) else not is_none
+                return self.block((st.body if truth else st.orelse) + stmts[i + 1:])
             if isinstance(st, ast.If):
                 # data-dependent branch on `any(mask-valued array)`: both outcomes are explored, the False outcome under the
                 # constraint that the array is False everywhere (on the selected cell classes)
@@ -245,8 +272,15 @@ class FoldInterp:
             if isinstance(st, ast.Assign) and len(st.targets) == 1:
                 t = st.targets[0]
                 if isinstance(t, ast.Name):
-                    if t.id in ('total_samples', 'total_per_entry'):
-                        self.env[t.id] = ('scalar', ast.unparse(st.value))
+                    vt = ast.unparse(st.value)
+                    if isinstance(st.value, ast.Constant) and st.value.value is None:
+                        self.env[t.id] = None
+                        continue
+                    if t.id in ('total_samples', 'total_per_entry') or '_total_per_entry()' in vt or vt.replace(' ', '') in ('numpy.sum(self.sample_sizes)', 'self.sample_sizes.sum()'):
+                        self.env[t.id] = ('scalar', vt)
+                        continue
+                    if isinstance(st.value, ast.Name) and isinstance(self.env.get(st.value.id), tuple) and self.env[st.value.id][0] == 'scalar':
+                        self.env[t.id] = self.env[st.value.id]
                         continue
                     v = self.ev(st.value)
                     if isinstance(v, tuple) and v[0] == 'ctor':
@@ -342,12 +376,11 @@ def check_fold_unfold(rep, prog, m):
     # the class predicates depend on these definitions
     for q in ('Spectrum.fold', 'Spectrum.unfold'):
         fn = prog.func(SM, q)
-        s = single_assignments(fn)
-        if s.get('total_samples') is None and s.get('total_per_entry') is None:
+        if not any(isinstance(n, ast.Compare) and not isinstance(n.ops[0], (ast.Is, ast.IsNot)) for n in ast.walk(fn)):
             continue     # the function does not use the class predicates (the algebra obligations above decide it)
-        ok = s.get('total_samples') is not None and s.get('total_per_entry') is not None and \
-            ast.unparse(s.get('total_samples')) == 'numpy.sum(self.sample_sizes)' and ast.unparse(s.get('total_per_entry')) == 'self._total_per_entry()'
-        rep.ob('R-IDX', '%s totals' % q, ok, 'total_samples = sum(sample_sizes); total_per_entry = allele count of each entry', rel, fn.lineno, what='cell classes defined by the derived-allele total of each entry')
+        bad = BAD_TOTALS.get(fn.name)
+        rep.ob('R-IDX', '%s totals' % q, bad is None, 'the class predicates compare self._total_per_entry() with half of sum(sample_sizes)' + ('' if bad is None else ': ' + bad),
+               rel, fn.lineno, what='cell classes defined by the derived-allele total of each entry')
     tp = prog.func(SM, 'Spectrum._total_per_entry')
     cp = prog.func(SM, 'Spectrum._counts_per_entry')
     okt = 'numpy.sum(self._counts_per_entry(), axis=-1)' in ast.unparse(tp) and 'numpy.indices(self.shape)' in ast.unparse(cp) and 'ind.transpose(list(range(1, self.Npop + 1)) + [0])' in ast.unparse(cp)
